@@ -49,7 +49,13 @@ class GotranCCodePrinter(C99CodePrinter):
         self._settings["contract"] = False
 
     def _print_Float(self, flt):
-        return self._print(str(float(flt)))
+        value = float(flt)
+        if value != value:
+            return "NAN"
+        if value in (float("inf"), float("-inf")):
+            # str(value) would be the undefined name inf
+            return "INFINITY" if value > 0 else "(-INFINITY)"
+        return self._print(str(value))
 
     def _print_Abs(self, expr):
         # sympy prints the integer function abs() for arguments it knows to be integer valued
